@@ -1670,11 +1670,47 @@ fn aux_rich_desc(n: usize) -> AirDesc {
     d
 }
 
+/// a Lagrange kernel column next to a running product that uses NO auxiliary random element (`num_rands = 0`: the
+/// GKR verifier's draws are the only ones of the auxiliary phase), 16 rows (four Lagrange random elements)
+fn lagrange_norands_desc(n: usize) -> AirDesc {
+    let r6 = Expr::add(Expr::Cur(0), Expr::Const(7));
+    let step = Expr::mul(Expr::AuxCur(0), Expr::add(Expr::Cur(0), Expr::Const(3)));
+    AirDesc {
+        width: 1,
+        trace_len: n,
+        exemptions: 1,
+        tail_junk: false,
+        periodic: vec![],
+        cols: vec![ColGen::Step { init: None, expr: r6.clone() }],
+        constraints: vec![Constraint { degree: Degree::new(1), expr: Expr::sub(Expr::Nxt(0), r6) }],
+        assertions: vec![AssertDesc::single(0, 0)],
+        aux: Some(AuxDesc {
+            width: 2,
+            num_rands: 0,
+            lagrange: true,
+            cols: vec![AuxGen::Acc { init: Expr::Const(1), step: step.clone() }],
+            constraints: vec![Constraint { degree: Degree::new(2), expr: Expr::sub(Expr::AuxNxt(0), step) }],
+            assertions: vec![AuxAssertDesc { a: AssertDesc::single(0, 0), value: Expr::Const(1) }],
+        }),
+    }
+}
+
 /// descriptions for the reference-verifier tie: periodic columns, the three assertion kinds, more than one
-/// exemption and (for a good third of them) an auxiliary segment without Lagrange kernel column all occur
+/// exemption, (for a good third of them) an auxiliary segment, and among these Lagrange kernel columns with and
+/// without additional auxiliary random elements all occur
 fn refv_descs(rng: &mut Rng, count: usize, max_log_len: u32) -> Vec<AirDesc> {
-    let mut v: Vec<AirDesc> = small_descs(8).into_iter().filter(|d| !d.has_lagrange()).collect();
+    let mut v: Vec<AirDesc> = small_descs(8);
+    v.push(lagrange_norands_desc(16));
     v.push(aux_rich_desc(8));
+    // the rich auxiliary segment with a Lagrange kernel column appended (two auxiliary random elements)
+    {
+        let mut d = aux_rich_desc(8);
+        if let Some(x) = d.aux.as_mut() {
+            x.width += 1;
+            x.lagrange = true;
+        }
+        v.push(d);
+    }
     let p0 = vec![3u128, 5, 7, 11];
     // periodic column in a constraint (degree with a cycle), periodic assertion on a cyclic column, sequence assertion
     let e = Expr::add(Expr::mul(Expr::Per(0), Expr::Cur(0)), Expr::Const(3));
@@ -1738,14 +1774,14 @@ fn refv_descs(rng: &mut Rng, count: usize, max_log_len: u32) -> Vec<AirDesc> {
     });
     // random descriptions: with an auxiliary segment until a good third of all descriptions has one
     let bud = Budget { min_log_len: 3, max_log_len, max_width: 3, max_degree: 3, aux_pct: 0, lagrange_pct: 0, exemptions: true, degenerate: false, sequences: true };
-    let bud_aux = Budget { aux_pct: 100, ..bud.clone() };
+    let bud_aux = Budget { aux_pct: 100, lagrange_pct: 40, ..bud.clone() };
     let mut guard = 0;
     while v.len() < count && guard < 10 * count {
         guard += 1;
         let naux = v.iter().filter(|d| d.aux.is_some()).count();
         let want_aux = 5 * naux < 2 * count;
         let d = random_desc(rng, if want_aux { &bud_aux } else { &bud });
-        if d.aux.is_some() == want_aux && !d.has_lagrange() && d.validate().is_ok() {
+        if d.aux.is_some() == want_aux && d.validate().is_ok() {
             v.push(d);
         }
     }
@@ -1756,7 +1792,7 @@ fn refv_descs(rng: &mut Rng, count: usize, max_log_len: u32) -> Vec<AirDesc> {
 /// sample of every mutation family applied to its bytes
 fn refv_lines(rng: &mut Rng, tier: Tier) -> Vec<String> {
     let quick = tier == Tier::Quick;
-    let (ncfg, per) = if quick { (14, 2usize) } else { (80, 4usize) };
+    let (ncfg, per) = if quick { (16, 2usize) } else { (88, 4usize) };
     let descs = refv_descs(rng, ncfg, if quick { 4 } else { 5 });
     let mut out = vec![];
     for (k, d) in descs.iter().enumerate() {
@@ -1884,6 +1920,50 @@ fn refv_lines(rng: &mut Rng, tier: Tier) -> Vec<String> {
                 let mut p = base.pt.clone();
                 p.remainder.truncate(l / 2);
                 out.push(format!("{} {} {} remresize:fri.remainder {}", head, os, pubs, hex(&p.to_bytes())));
+            }
+        }
+        // always (Lagrange kernel column): the GKR proof of the family's dummy GKR verifier is a vint64 `usize`, the
+        // number of Lagrange random elements to draw: one less / one more than log2(n), 0, 64, 65 (refused by the
+        // GKR verifier), the right number in a longer vint64 encoding, a trailing byte, no bytes, no GKR proof at all;
+        // and the Lagrange kernel frame with a row dropped / duplicated (length prefix consistent)
+        if c.desc.has_lagrange() {
+            let l = n.trailing_zeros() as u64;
+            let vint = |v: u64, len: u32| -> Vec<u8> {
+                // `write_usize`: `len` bytes, the value shifted left by `len`, bit `len - 1` set
+                let x: u128 = ((v as u128) << len) | (1u128 << (len - 1));
+                (0..len).map(|i| (x >> (8 * i)) as u8).collect()
+            };
+            let mut variants: Vec<(&'static str, Option<Vec<u8>>)> = vec![
+                ("fewer", Some(vint(l - 1, 1))),
+                ("more", Some(vint(l + 1, 1))),
+                ("zero", Some(vint(0, 1))),
+                ("max", Some(vint(64, 1))),
+                ("refused", Some(vint(65, 2))),
+                ("wide", Some(vint(l, 2))),
+                ("wider", Some(vint(l, 4))),
+                ("empty", Some(vec![])),
+                ("absent", None),
+            ];
+            let mut tr = vint(l, 1);
+            tr.push(0);
+            variants.push(("trailing", Some(tr)));
+            for (name, g) in variants {
+                let mut p = base.pt.clone();
+                p.gkr = g;
+                out.push(format!("{} {} {} gkr:{} {}", head, os, pubs, name, hex(&p.to_bytes())));
+            }
+            let e = elem_bytes(c.field) * c.opts.ext as usize;
+            if base.pt.ood_lagrange.len() > 1 + e {
+                let mut p = base.pt.clone();
+                let rows = p.ood_lagrange[0];
+                p.ood_lagrange[0] = rows - 1;
+                p.ood_lagrange.truncate(1 + e * (rows as usize - 1));
+                out.push(format!("{} {} {} lagframe:short {}", head, os, pubs, hex(&p.to_bytes())));
+                let mut p = base.pt.clone();
+                p.ood_lagrange[0] = rows + 1;
+                let last = p.ood_lagrange[p.ood_lagrange.len() - e..].to_vec();
+                p.ood_lagrange.extend(last);
+                out.push(format!("{} {} {} lagframe:long {}", head, os, pubs, hex(&p.to_bytes())));
             }
         }
         // a prover that corrupts one cell of the auxiliary segment after building it (the auxiliary transition
